@@ -73,6 +73,8 @@ pub enum ShapeFault {
     /// scratch length: 0, or advertised-1
     ScratchZero,
     ScratchMinus1,
+    /// input of k chunks, output longer or shorter by whole chunks
+    OutChunks { k: u8, dk: i8 },
     /// two faults at once
     DataAndOut { k: u8, delta: i32, odelta: i64 },
     OutAndScratch { delta: i64 },
